@@ -74,14 +74,16 @@ func (s *Sched) Spawn(f func()) int {
 // outside the scheduled threads).
 var OnOp func(*Op)
 
-// Yield is called by the shims before performing op.
-func Yield(op *Op) {
+// Yield is called by the shims before performing op. It reports whether the caller is a
+// scheduled thread (false: the operation runs directly, e.g. set-up code or the harness observing
+// state between steps).
+func Yield(op *Op) bool {
 	if OnOp != nil {
 		OnOp(op)
 	}
 	s := S
 	if s == nil || s.cur == nil {
-		return
+		return false
 	}
 	t := s.cur
 	t.pending = op
@@ -90,6 +92,7 @@ func Yield(op *Op) {
 	if !<-t.resume {
 		panic(killed{})
 	}
+	return true
 }
 
 // Done reports whether thread id has finished.
